@@ -28,6 +28,18 @@ REF = [
  ("query_set_mapper_after", ["C07", "C05", "C02"], B,
   "    st->mapper_seq = lltd_ntohs(inHeader->seqNumber);\n    st->mapper_real = inHeader->realSource;\n    st->mapper_apparent = inHeader->frameHeader.source;\n    st->mapper_known = 1;\n\n    size_t mtu = 0;",
   "    st->mapper_known = 1;\n    st->mapper_apparent = inHeader->frameHeader.source;\n    st->mapper_real = inHeader->realSource;\n    st->mapper_seq = lltd_ntohs(inHeader->seqNumber);\n\n    size_t mtu = 0;"),
+ ("add_last_free_slot", ["C16", "C11", "C12"], A,
+  "    for (int i = 0; i < SESSION_TABLE_MAX_ENTRIES; i++) {\n        session_entry *entry = &table->entries[i];\n        if (!entry->valid) {\n            mac_copy(entry->mapper_mac, mapper_mac);",
+  "    for (int i = SESSION_TABLE_MAX_ENTRIES - 1; i >= 0; i--) {\n        session_entry *entry = &table->entries[i];\n        if (!entry->valid) {\n            mac_copy(entry->mapper_mac, mapper_mac);"),
+ ("ack_scan_no_break", ["C11", "C01"], A,
+  "                    if (mac_equal(stations[i].a, our_mac)) {\n                        acking = true;\n                        break;\n                    }",
+  "                    if (!acking && mac_equal(stations[i].a, our_mac)) {\n                        acking = true;\n                    }"),
+ ("remove_zeroes_entry", ["C16", "C12"], A,
+  "            entry->generation == generation) {\n            entry->valid = false;\n            if (table->count > 0) {",
+  "            entry->generation == generation) {\n            lltd_port_memset(entry, 0, sizeof(*entry));\n            if (table->count > 0) {"),
+ ("probe_ack_own_buffer", ["C06", "C18", "C19", "C02"], B,
+  "    if (ack) {\n        /*\n         * ACK frame back to mapper:",
+  "    if (ack) {\n        lltd_port_free(probe);\n        probe = (lltd_demultiplex_header_t *)lltd_port_malloc(packageSize);\n        if (!probe) {\n            return true;\n        }\n        lltd_port_memset(probe, 0, packageSize);\n        /*\n         * ACK frame back to mapper:"),
 ]
 
 
